@@ -1086,7 +1086,21 @@ func (m *MapPollard) Verify(delHashes []Hash, proof Proof, remember bool) error 
 // This function is different from Verify() in that it's not safe for concurrent access.
 func (m *MapPollard) verify(delHashes []Hash, proof Proof, remember bool) error {
 	if TreeRows(m.NumLeaves) != m.TotalRows {
-		proof.Targets = translatePositions(proof.Targets, m.TotalRows, TreeRows(m.NumLeaves))
+		// A target past the end of its row would be translated onto a
+		// position in a different row.
+		forestRows := TreeRows(m.NumLeaves)
+		for _, target := range proof.Targets {
+			row := DetectRow(target, m.TotalRows)
+			if row == 0 {
+				continue
+			}
+			if row > forestRows ||
+				target-startPositionAtRow(row, m.TotalRows) >= 1<<(forestRows-row) {
+				return fmt.Errorf("invalid proof. Position %d does not exist "+
+					"in a forest with %d leaves", target, m.NumLeaves)
+			}
+		}
+		proof.Targets = translatePositions(proof.Targets, m.TotalRows, forestRows)
 	}
 
 	s := m.getStump()
